@@ -18,7 +18,9 @@ INT_TYPES = ["byte", "char", "short", "three", "int"]
 
 WORDS = ["Map", "Item", "Npc", "Spell", "Chest", "Door", "Quest", "Shop", "Guild", "Party", "Trade", "Bank",
          "Board", "Skill", "Stat", "Warp", "Tile", "Sign", "Face", "Level", "Admin", "Paper", "Coord", "Big",
-         "Entry", "Info", "Record", "Change", "Update", "List", "Reply", "Pair", "Unit", "Zone", "Hair", "Emote"]
+         "Entry", "Info", "Record", "Change", "Update", "List", "Reply", "Pair", "Unit", "Zone", "Hair", "Emote",
+         # directory names as name parts: module names that start with (or equal) a package name
+         "Client", "Server", "Net", "Pub", "Data"]
 ACRONYMS = ["NPC", "EO", "ID", "HP", "TP", "AB", "PK", "X", "Y2", "A", "B3D", "HTTPReply", "EIF", "ESF"]
 FIELD_WORDS = ["alpha", "bravo", "count", "delta", "echo", "flag", "gold", "hp", "item_id", "job", "kind", "level",
                "mode", "name", "owner", "price", "quantity", "rank", "slot", "title", "unit", "vitality", "weight",
@@ -163,6 +165,8 @@ class SpecGen:
                 values.append((vn, o))
             if not values:
                 values = [("Only", 0)]
+            if rng.random() < 0.4:
+                rng.shuffle(values)     # declaration order need not follow the ordinals
         t.values = values
         t.min_size = {"byte": 1, "char": 1, "short": 2, "three": 3, "int": 4}[t.underlying]
         t.fixed = t.min_size
@@ -323,6 +327,7 @@ class SpecGen:
                 second_optional = optional or (rng.random() < k.p_optional_length_ref and i >= n - 1)
                 lines.append(f'{indent}<length name="{lname}" type="{ltype}"{offa}{opt_attr}/>')
                 lines.append(f'{indent}<field name="{fname}" type="{stype}" length="{lname}"'
+                             + (' padded="true"' if rng.random() < 0.2 else "")
                              + (' optional="true"' if second_optional else "") + "/>")
                 note(not both_optional, 0 if both_optional else SIZE[ltype], None, True)
                 if second_optional:
@@ -446,10 +451,16 @@ class SpecGen:
         elif r < 0.55 and enums:
             t = rng.choice(enums)
             etype, efixed, ebounded, edepth = t.name, t.min_size, True, 0
+            if rng.random() < k.p_override:
+                under = rng.choice(INT_TYPES)
+                etype, efixed = f"{t.name}:{under}", SIZE[under]
         elif r < 0.65 and delimited:
             etype, efixed, ebounded, edepth = rng.choice(["string", "encoded_string", "blob"]), None, False, 0
         elif r < 0.72:
             etype, efixed, ebounded, edepth = "bool", 1, True, 0
+            if rng.random() < k.p_override * 2:
+                under = rng.choice(INT_TYPES)
+                etype, efixed = f"bool:{under}", SIZE[under]
         else:
             t = rng.choice(INT_TYPES)
             etype, efixed, ebounded, edepth = t, SIZE[t], True, 0
